@@ -94,6 +94,28 @@ theorem one_payload_per_requester (hinj : Function.Injective C.hash) (evs : List
     (hid : r1.hin.id = r2.hin.id) : r1.hin = r2.hin :=
   encode_inj (hinj (one_hash_per_requester C E cfg evs r1 r2 q h1 h2 hs hq1 hq2 hid))
 
+/-- **Overlapping requests, one signature.** The handler's check-and-record (`dedupHash` under
+`s.mu`) is one atomic step of the model, so two overlapping signature requests of one requester
+for one id are some interleaving of two atomic `sigReq` steps, possibly with any other events
+`mid` in between. Whichever of the two runs first (call its payload `P1`): if it was answered with
+a signature, the other one — for a different payload — is not, from any state `w` whatsoever.
+(That the Go handler really is atomic in this sense is tied only by the racing `sreq2` ops of the
+correspondence stream, see trusted base.) -/
+theorem concurrent_requests_one_signature (hinj : Function.Injective C.hash)
+    (w : World Digest) (h q : Peer) (id : Bytes) (P1 P2 : Payload) (hne : P1 ≠ P2)
+    (mid : List (Ev Sig)) (s1 s2 : Sig)
+    (h1 : (step C E cfg w (.sigReq h q id P1)).2 = .sig (.ok s1)) :
+    (step C E cfg (run C E cfg (step C E cfg w (.sigReq h q id P1)).1 mid) (.sigReq h q id P2)).2
+      ≠ .sig (.ok s2) := by
+  intro h2
+  have a := (step_sigReq_ok C E cfg w h q id P1 s1 h1).1
+  have b := run_dedup_mono C E cfg _ mid h _ _ a
+  have c := (step_sigReq_ok C E cfg _ h q id P2 s2 h2).2 _ b
+  have e := encode_inj (hinj c)
+  simp only [hinOf, HashIn.mk.injEq, true_and] at e
+  apply hne
+  cases P1; cases P2; simp_all
+
 /-- **Agreement for an honest sender, any number of dishonest members**: two deliveries carrying
 the transport identity of the same honest sender and the same id have the same payload, as soon as
 one honest cluster member other than the sender exists among the receivers. -/
@@ -222,6 +244,11 @@ open Witness in
 the deliveries that remain agree. -/
 example : (run symC envBind cfg4 {} evsRelay).delivered.map (fun d => (d.at_, d.sender, d.accepted)) =
     [(2, 3, false), (1, 3, true), (2, 0, true), (1, 0, true)] := by decide
+
+open Witness in
+/-- `concurrent_requests_one_signature` is not vacuous: the first of two racing requests is signed. -/
+example : ∃ s, (step symC envBind cfg4 (run symC envBind cfg4 {} [.reg 0 mid]) (.sigReq 0 2 mid (pay 2 1))).2
+    = .sig (.ok s) := ⟨_, rfl⟩
 
 /-- the encoding separates what plain concatenation would confuse. -/
 example : encode ⟨Witness.B [1, 2], Witness.B [3], Witness.B [], Witness.B []⟩ ≠
